@@ -93,12 +93,74 @@ def opDTiles (args : List String) : Option String := do
                  if b = 0 then none else pure (join ((distTiles n m b).map showTile))
   | _ => none
 
+/-! ### C15 frames -/
+section FrameOps
+open Arim.Frame
+
+def showPairs (l : List Pair) : String := join (l.map (fun p => s!"{p.1}:{p.2}"))
+
+def optInt? (s : String) : Option (Option Int) := if s == "n" then some none else (int? s).map some
+
+def parseIdx (s : String) : Option Idx :=
+  match s.splitOn "_" with
+  | ["s", a, b, c] => do let a ← optInt? a; let b ← optInt? b; let c ← int? c; pure (Idx.slice a b c)
+  | ["m", bits] => some (Idx.mask (bits.toList.map (· == '1')))
+  | ["i", l] => (intList? l).map Idx.ints
+  | _ => none
+
+def parseFrame (s : String) : Option (List (TT Nat)) :=
+  (splitNE s ",").mapM (fun t => match t.splitOn ":" with
+    | [a, b, c] => do let a ← nat? a; let b ← nat? b; let c ← nat? c; pure { tx := a, rx := b, data := c }
+    | _ => none)
+
+def showCapture : Option Capture → String
+  | none => "err" | some .fmc => "fmc" | some .hmc => "hmc" | some .unsupported => "unsupported"
+
+def showState (f : List (TT Nat)) (probe : List Nat) : String :=
+  let ps := pairsOf f
+  join (f.map (fun t => s!"{t.tx}:{t.rx}:{t.data}")) ++ "|" ++ showNats probe ++ "|" ++
+    showCapture (inferCapture ps) ++ "|" ++ showNats (defaultWeights ps) ++ "|" ++ showBool (isComplete f)
+
+def frameStep (st : List (TT Nat) × List Nat) (op : String) : Option (Option (List (TT Nat) × List Nat)) :=
+  match op.splitOn "=" with
+  | ["expand"] => some (some (expand st.1, st.2))
+  | ["filt"] => some (some st)
+  | ["sub", ix] => (parseIdx ix).map (fun ix => (subframe st.1 ix).map (fun f => (f, st.2)))
+  | ["subel", ix, mk] => (parseIdx ix).map (fun ix => subframeFromElements st.1 st.2 ix (mk == "1"))
+  | _ => none
+
+/-- `frame <numel> <tx:rx:data,...> <op> ...` → states after each op, `;`-separated -/
+def opFrame (args : List String) : Option String := do
+  match args with
+  | n :: fr :: ops =>
+    let n ← nat? n
+    let f ← parseFrame fr
+    let rec go (st : List (TT Nat) × List Nat) (ops : List String) (acc : List String) : Option (List String) :=
+      match ops with
+      | [] => some acc.reverse
+      | o :: os => match frameStep st o with
+        | none => none
+        | some none => some (("E" :: acc).reverse)
+        | some (some st') => go st' os (showState st'.1 st'.2 :: acc)
+    let outs ← go (f, List.range n) ops [showState f (List.range n)]
+    pure (join outs ";")
+  | _ => none
+
+def opEnum (args : List String) : Option String := do
+  match args with
+  | [k, n] => let n ← nat? n
+              if k == "fmc" then pure (showPairs (fmc n)) else if k == "hmc" then pure (showPairs (hmc n)) else none
+  | _ => none
+end FrameOps
+
 def dispatch (op : String) (args : List String) : String :=
   let r : Option String :=
     match op with
     | "fermat" => opFermat args
     | "minplus" => opMinPlus args
     | "chunks" => opChunks args
+    | "frame" => opFrame args
+    | "enum" => opEnum args
     | "mtiles" => opMTiles args
     | "dtiles" => opDTiles args
     | _ => none
